@@ -24,6 +24,7 @@ import (
 	"github.com/NethermindEth/juno/migration/historyprunner"
 	"github.com/NethermindEth/juno/migration/state/headstate"
 	"github.com/NethermindEth/juno/migration/statedifflength"
+	"github.com/NethermindEth/juno/pruner"
 	"github.com/NethermindEth/juno/utils/log"
 	"verif/harness/lib"
 )
@@ -41,25 +42,50 @@ type fullSpec struct {
 	// Prunable: the database also holds what the history pruner migration needs (an L1 head two
 	// blocks below the tip and the deprecated per-block state history entries of every diff)
 	Prunable bool `json:"prunable,omitempty"`
+	// Retained: retainedBlocks of historyprunner.New (0 = 4). L1Head: the stored L1 head (nil = two
+	// blocks below the tip; may be above the chain height)
+	Retained int     `json:"retained,omitempty"`
+	L1Head   *uint64 `json:"l1Head,omitempty"`
 }
 
-const pruneRetained = 4 // historyprunner.New(retainedBlocks = 4, minAge = 0)
+func (fs fullSpec) retained() uint64 {
+	if fs.Retained > 0 {
+		return uint64(fs.Retained)
+	}
+	return 4
+}
 
-// oldestKept is the first block the history pruner keeps (0 if it prunes nothing).
-func (fs fullSpec) oldestKept() uint64 {
-	if !fs.Prunable || fs.Chain.NoHeight || fs.Chain.height() < 2 {
+func (fs fullSpec) l1Head() (uint64, bool) {
+	if !fs.Prunable || fs.Chain.NoHeight {
+		return 0, false
+	}
+	if fs.L1Head != nil {
+		return *fs.L1Head, true
+	}
+	if fs.Chain.height() < 2 {
+		return 0, false
+	}
+	return fs.Chain.height() - 2, true
+}
+
+// oldestKept is the first block the history pruner keeps with `retained` blocks (0 if it prunes
+// nothing): pivot = min(L1 head, height); pivot - retained when pivot >= retained.
+func (fs fullSpec) oldestKept(retained uint64) uint64 {
+	l1, ok := fs.l1Head()
+	if !ok {
 		return 0
 	}
-	pivot := fs.Chain.height() - 2
-	if pivot < pruneRetained {
+	pivot := min(l1, fs.Chain.height())
+	if pivot < retained {
 		return 0
 	}
-	return pivot - pruneRetained
+	return pivot - retained
 }
 
 type fullStart struct {
-	Prune      bool  `json:"prune,omitempty"` // optional migration "prune-mode" enabled
-	HeadState  bool  `json:"headState"`       // optional migration "new-state" enabled
+	Retained   int   `json:\"retained,omitempty\"` // retainedBlocks configured for this start (0 = the spec's)
+	Prune      bool  `json:"prune,omitempty"`      // optional migration "prune-mode" enabled
+	HeadState  bool  `json:"headState"`            // optional migration "new-state" enabled
 	Inflate    bool  `json:"inflate"`
 	CancelAt   int   `json:"cancelAt"`             // cancel right after this store commit (0 = never)
 	CrashAt    int   `json:"crashAt"`              // the process dies right after this store commit (0 = never)
@@ -164,8 +190,7 @@ func (fs fullSpec) build() (*memory.Database, error) {
 				}
 			}
 		}
-		if fs.Prunable && fs.Chain.height() >= 2 {
-			l1 := fs.Chain.height() - 2
+		if l1, ok := fs.l1Head(); ok {
 			if err := core.WriteL1Head(d, &core.L1Head{BlockNumber: l1, BlockHash: blockHash(fs.Chain.Seed, l1), StateRoot: feltOf(l1 + 1)}); err != nil {
 				return nil, err
 			}
@@ -303,11 +328,11 @@ func (m *recMig) Migrate(ctx context.Context, database db.KeyValueStore, n *netw
 	return st, err
 }
 
-func fullRegistry(prune, headState bool, wrap func(int, migration.Migration) migration.Migration) (*migration.Registry, string) {
+func fullRegistry(prune, headState bool, retained uint64, wrap func(int, migration.Migration) migration.Migration) (*migration.Registry, string) {
 	// node/migration.go registerMigrations
 	r := migration.NewRegistry().
 		With(wrap(0, &blocktransactions.Migrator{})).
-		WithOptional(wrap(1, historyprunner.New(pruneRetained, 0)), prune, "prune-mode").
+		WithOptional(wrap(1, historyprunner.New(retained, 0)), prune, "prune-mode").
 		WithOptional(wrap(2, &headstate.Migrator{}), headState, "new-state").
 		With(wrap(3, &statedifflength.Migrator{}))
 	opt := func(b bool) string {
@@ -339,6 +364,7 @@ type fullOutcome struct {
 	failedReads     int64
 	gets, iters     int64
 	readFailOutside bool
+	panicS          string
 }
 
 // realFullStart runs NewRunner + Run with the real migrations on (a copy of) d.
@@ -393,7 +419,11 @@ func realFullStart(d *memory.Database, spec fullSpec, sp fullStart) fullOutcome 
 			fr.crashInHs = fr.inMigrate && fr.hsPre != nil && fr.hsPost == nil
 		}
 	}
-	reg, regS := fullRegistry(sp.Prune, sp.HeadState, func(i int, m migration.Migration) migration.Migration {
+	ret := spec.retained()
+	if sp.Retained > 0 {
+		ret = uint64(sp.Retained)
+	}
+	reg, regS := fullRegistry(sp.Prune, sp.HeadState, ret, func(i int, m migration.Migration) migration.Migration {
 		return &recMig{inner: m, idx: i, fr: fr}
 	})
 	// node/migration.go migrateIfNeeded: the deprecated migrations run first (a no-op here: the
@@ -437,8 +467,11 @@ func realFullStart(d *memory.Database, spec fullSpec, sp fullStart) fullOutcome 
 		return out
 	}
 	finished := store.runWatched(8*time.Second, 180*time.Second, func() {
-		e, _, _ := lib.Try(func() error { return runner.Run(ctx) })
+		e, panicked, stack := lib.Try(func() error { return runner.Run(ctx) })
 		runErr = e
+		if panicked {
+			out.panicS = e.Error() + "\n" + stack
+		}
 	})
 	if !finished {
 		out.hang = true
@@ -477,21 +510,20 @@ func realFullStart(d *memory.Database, spec fullSpec, sp fullStart) fullOutcome 
 }
 
 // checkFullFinal: the property on a database whose upgrade has completed.
-func (h *harness) checkFullFinal(hist fullHistory, final *memory.Database, prune, headState bool, btImgs []string) bool {
+func (h *harness) checkFullFinal(hist fullHistory, final *memory.Database, prune, headState bool, btImgs []string, effRet uint64) bool {
 	fs := hist.Spec
 	c := fs.Chain
 	ok := true
 	// transactions / receipts / lookups of every block; an A-type loss is attributed to the image
 	// the block-transactions migration resumed from (that image is the deterministic replay)
 	imageSpec := c
-	for _, l := range btImgs {
-		if strings.Contains(l, "n") && strings.Contains(l, "o") {
-			imageSpec.Layout = l
-		}
+	if len(btImgs) > 0 {
+		// the image the LAST block-transactions Migrate call (the one that completed it) started from
+		imageSpec.Layout = btImgs[len(btImgs)-1]
 	}
 	from := uint64(0)
 	if prune {
-		from = fs.oldestKept()
+		from = fs.oldestKept(effRet)
 	}
 	if !checkFinalFrom(h.res, c, imageSpec, final, from) {
 		ok = false
@@ -555,7 +587,7 @@ func (h *harness) fullHistoryCase(hist fullHistory, family string) {
 	res := h.res
 	d0, err := hist.Spec.build()
 	if err != nil {
-		res.Note("full spec does not build: %v", err)
+		res.Fatalf("full spec does not build: %v", err)
 		return
 	}
 	res.Sample(10, map[string]any{"kind": "full-upgrade-history", "history": hist})
@@ -564,6 +596,8 @@ func (h *harness) fullHistoryCase(hist fullHistory, family string) {
 	}
 	cur := d0
 	headState, prune := false, false
+	effRet := uint64(0)   // retainedBlocks whose cutoff the database was actually pruned to (read off the final database)
+	var candRets []uint64 // retainedBlocks of every start that ran with prune-mode
 	var btImgs []string
 	starts := append([]fullStart{}, hist.Starts...)
 	for si := 0; si < len(starts)+3; si++ {
@@ -584,11 +618,22 @@ func (h *harness) fullHistoryCase(hist fullHistory, family string) {
 		} else {
 			sp = fullStart{HeadState: headState, Prune: prune} // undisturbed
 		}
+		if sp.Prune {
+			r := hist.Spec.retained()
+			if sp.Retained > 0 {
+				r = uint64(sp.Retained)
+			}
+			candRets = append(candRets, r)
+		}
 		headState, prune = headState || sp.HeadState, prune || sp.Prune
 		o := realFullStart(cur, hist.Spec, sp)
 		res.Case(fmt.Sprintf("%s|%d|%+v|%s|%d", family, si, sp, hist.Spec.Chain.Layout, hist.Spec.Chain.Seed), o.commits > 0)
 		if o.hang {
 			res.Violate(lib.Violation{Sig: "upgrade-hangs", What: fmt.Sprintf("start %d does not return", si), Replay: hist})
+			return
+		}
+		if o.panicS != "" {
+			res.Violate(lib.Violation{Sig: "upgrade-panics", What: fmt.Sprintf("start %d: %s", si, o.panicS), Replay: hist})
 			return
 		}
 		if o.failedReads > 0 {
@@ -626,35 +671,55 @@ func (h *harness) fullHistoryCase(hist fullHistory, family string) {
 			res.Hit("full-start:write-failed")
 		}
 		if !o.crashed && o.result == "err" && sp.CancelAt == 0 && o.failedWrites == 0 && o.failedReads == 0 {
-			msg := "an undisturbed start returns an error"
-			for i, ob := range o.obs {
-				if ob.errKind == "o" {
-					msg += fmt.Sprintf(" (migration %d failed: %s)", i, ob.errText)
+			disturbedBefore := false
+			for _, prev := range starts[:min(si, len(starts))] {
+				if prev.CancelAt > 0 || prev.CrashAt > 0 || prev.FailAt > 0 || prev.FailGetAt > 0 || prev.FailIterAt > 0 {
+					disturbedBefore = true
 				}
 			}
-			sig := "upgrade-fails-after-interruption"
-			if ob := o.obs[1]; ob != nil && ob.errKind == "o" && strings.Contains(ob.errText, "running stager") && strings.Contains(ob.errText, "history at block") {
-				// the defect demonstrated deterministically by prunerRestoreCrash
-				sig = "historyprunner-rerun-fails-after-death-in-restore-phase"
-			}
+			sig, msg := classifyUpgradeFailure(o, len(candRets) > 1, disturbedBefore)
 			res.Hit("oracle:" + sig)
 			res.Violate(lib.Violation{Sig: sig, What: msg, Replay: hist})
 			return
 		}
 		if !o.crashed && o.result == "ok" {
 			// upgrade complete: property + same final database as the undisturbed upgrade
-			good := h.checkFullFinal(hist, cur, prune, headState, btImgs)
+			if prune {
+				// which of the configured retentions the database was pruned to: the first run that
+				// commits the prune pins it; a run that died earlier does not
+				floor, ferr := pruner.OldestRetainedBlock(cur)
+				if ferr != nil {
+					floor = 0
+				}
+				found := false
+				for _, r := range candRets {
+					if hist.Spec.oldestKept(r) == floor {
+						effRet, found = r, true
+						break
+					}
+				}
+				if !found {
+					res.Violate(lib.Violation{Sig: "historyprunner-cutoff-matches-no-configured-retention",
+						What: fmt.Sprintf("the database is pruned up to block %d; the configured retentions %v give other cutoffs", floor, candRets), Replay: hist})
+					return
+				}
+			}
+			good := h.checkFullFinal(hist, cur, prune, headState, btImgs, effRet)
 			md, err := migration.GetSchemaMetadata(cur)
-			_, tgt := fullRegistry(prune, headState, func(_ int, m migration.Migration) migration.Migration { return m })
+			_, tgt := fullRegistry(prune, headState, 4, func(_ int, m migration.Migration) migration.Migration { return m })
 			t, _ := targetOf(tgt)
 			if err != nil || uint64(md.CurrentVersion) != t || uint64(md.LastTargetVersion) != t {
 				res.Violate(lib.Violation{Sig: "run-ok-but-target-not-applied", What: fmt.Sprintf("metadata %+v target %b", md, t), Replay: hist})
 			}
-			tw := realFullStart(d0, hist.Spec, fullStart{HeadState: headState, Prune: prune})
-			if good && tw.result == "ok" {
-				if same, why := sameDump(dump(cur), dump(tw.after)); !same {
-					res.Violate(lib.Violation{Sig: "upgrade-final-db-differs-from-undisturbed-upgrade", What: why, Replay: hist})
-				}
+			tw := realFullStart(d0, hist.Spec, fullStart{HeadState: headState, Prune: prune, Retained: int(effRet)})
+			_ = good
+			if tw.result != "ok" || tw.crashed {
+				sig, msg := classifyUpgradeFailure(tw, len(candRets) > 1, false)
+				res.Hit("oracle:" + sig)
+				res.Violate(lib.Violation{Sig: sig, What: "the history completed the upgrade, the UNDISTURBED upgrade of the same database does not: " + msg,
+					Replay: fullHistory{Spec: hist.Spec, Starts: []fullStart{{HeadState: headState, Prune: prune, Retained: int(effRet)}}}})
+			} else if same, why := sameDumpModuloEmpty(hist.Spec.Chain, dump(cur), dump(tw.after)); !same {
+				res.Violate(lib.Violation{Sig: "upgrade-final-db-differs-from-undisturbed-upgrade", What: why, Replay: hist})
 			}
 			if si >= len(starts)-1 {
 				return
@@ -720,12 +785,29 @@ func (h *harness) genFullHistory(r *lib.RNG) fullHistory {
 		c.Counts, c.Layout = c.Counts[:45], c.Layout[:45]
 	}
 	hist := fullHistory{Spec: fullSpec{Chain: c, Contracts: lib.Pick(r, []int{0, 1, 4, 9})}}
-	hs := false
+	if r.Chance(1, 2) {
+		hist.Spec.Prunable = true
+		hist.Spec.Retained = lib.Pick(r, []int{0, 1, 3, 8})
+		if r.Chance(1, 4) {
+			l1 := uint64(r.Intn(len(c.Counts) + 3)) // anywhere, also above the height
+			hist.Spec.L1Head = &l1
+		}
+	}
+	hs, pr := false, false
 	for i, n := 0, r.Range(1, 3); i < n; i++ {
 		if r.Chance(1, 3) {
 			hs = true
 		}
-		sp := fullStart{HeadState: hs, Inflate: r.Chance(2, 3)}
+		if hist.Spec.Prunable && r.Chance(1, 2) {
+			pr = true
+		}
+		sp := fullStart{HeadState: hs, Prune: pr, Inflate: r.Chance(2, 3)}
+		if pr && r.Chance(1, 5) {
+			sp.Retained = r.Range(1, 9) // configuration changed between restarts
+		}
+		if r.Chance(1, 10) && pr {
+			sp.Prune = false // opt-out attempt
+		}
 		if r.Chance(1, 6) && hs {
 			sp.HeadState = false // opt-out attempt
 		}
@@ -748,7 +830,9 @@ func (h *harness) fullAll() {
 	fixed := fullSpec{Chain: chainSpec{Seed: 5, Counts: append(append(repeatInt(2, 12), repeatInt(0, 3)...), repeatInt(1, 8)...),
 		Layout: strings.Repeat("o", 12) + "---" + strings.Repeat("o", 8)}, Contracts: 5}
 	d0, err := fixed.build()
-	if err == nil {
+	if err != nil {
+		h.res.Fatalf("fixed upgrade fixture does not build: %v", err)
+	} else {
 		tw := realFullStart(d0, fixed, fullStart{HeadState: true, Inflate: true})
 		h.res.HitN("full-fixed-commits", tw.commits)
 		step := 1
@@ -773,7 +857,9 @@ func (h *harness) fullAll() {
 	}
 	// the same with the history pruner enabled (dense chain: every block has transactions)
 	pr := fullSpec{Chain: chainSpec{Seed: 9, Counts: repeatInt(2, 24), Layout: strings.Repeat("o", 24)}, Contracts: 3, Prunable: true}
-	if d1, err := pr.build(); err == nil {
+	if d1, err := pr.build(); err != nil {
+		h.res.Fatalf("prune upgrade fixture does not build: %v", err)
+	} else {
 		tw := realFullStart(d1, pr, fullStart{Prune: true, HeadState: true, Inflate: true})
 		h.res.HitN("full-prune-commits", tw.commits)
 		h.prunerRestoreCrash(pr, "prune")
@@ -795,6 +881,8 @@ func (h *harness) fullAll() {
 			h.fullHistoryCase(fullHistory{Spec: pr, Starts: []fullStart{{Prune: true, HeadState: true, Inflate: true, FailIterAt: i}}}, "prune-readfault")
 		}
 	}
+	h.pruneBoundaryFamilies()
+	h.pruneCutoffGrid()
 	n := h.f.Scale(40, 800)
 	for i := 0; i < n; i++ {
 		h.fullHistoryCase(h.genFullHistory(h.r.Fork(uint64(5000000+i))), "rand")
@@ -824,6 +912,7 @@ func bucketEmpty(d *memory.Database, b db.Bucket) bool {
 func (h *harness) prunerRestoreCrash(fs fullSpec, family string) {
 	d0, err := fs.build()
 	if err != nil {
+		h.res.Fatalf("fixture does not build: %v", err)
 		return
 	}
 	work := d0.Copy()
@@ -838,7 +927,7 @@ func (h *harness) prunerRestoreCrash(fs fullSpec, family string) {
 			img = s.image()
 		}
 	}
-	reg, _ := fullRegistry(true, false, func(_ int, m migration.Migration) migration.Migration { return m })
+	reg, _ := fullRegistry(true, false, fs.retained(), func(_ int, m migration.Migration) migration.Migration { return m })
 	runner, err := migration.NewRunner(reg, store, &networks.Sepolia, log.NewNopZapLogger())
 	if err != nil || hungOnce.Load() {
 		return
@@ -877,7 +966,7 @@ func (h *harness) prunerRestoreCrash(fs fullSpec, family string) {
 	if same, why := sameDump(dump(o.after), dump(tw.after)); !same {
 		h.res.Violate(lib.Violation{Sig: "upgrade-final-db-differs-from-undisturbed-upgrade", What: "after death in the pruner's restore phase: " + why, Replay: rp})
 	}
-	h.checkFullFinal(fullHistory{Spec: fs}, o.after, true, false, nil)
+	h.checkFullFinal(fullHistory{Spec: fs}, o.after, true, false, nil, fs.retained())
 }
 
 // ---- statedifflength: every observed Migrate call must be a transition of the Lean model -------
@@ -1106,4 +1195,230 @@ func (h *harness) hsTransition(o hsObs, hist map[string]any) {
 	}
 	h.res.Mismatch(lib.Mismatch{Sig: "headstate-transition-not-allowed-by-model", Input: map[string]any{
 		"case": hist, "pre": o.hsPre, "steps": toks}, Model: last, Impl: o.hsRet + " " + want})
+}
+
+// pruneBoundaryFamilies: prune-mode at the boundaries of its configuration — the pivot (min(L1 head,
+// height)) below / equal to / above retainedBlocks, the L1 head above the chain, empty blocks inside
+// the kept window and below the first block-transactions pass, prune-mode enabled only after the
+// upgrade completed without it, retainedBlocks changed between restarts, failing writes.
+func (h *harness) pruneBoundaryFamilies() {
+	dense := func(n int) chainSpec {
+		return chainSpec{Seed: 9, Counts: repeatInt(2, n), Layout: strings.Repeat("o", n)}
+	}
+	und := []fullStart{{Prune: true, HeadState: true}}
+	// pivot = height-2 against retained = 4: heights 5,6,7,8 ; retained 1 and 0-equivalents; L1 head above the tip
+	for _, n := range []int{3, 6, 7, 8, 9, 12} {
+		for _, ret := range []int{1, 4} {
+			h.fullHistoryCase(fullHistory{Spec: fullSpec{Chain: dense(n), Contracts: 3, Prunable: true, Retained: ret}, Starts: und}, "prune-boundary")
+		}
+	}
+	for _, l1 := range []uint64{0, 3, 4, 5, 9, 30} {
+		l := l1
+		h.fullHistoryCase(fullHistory{Spec: fullSpec{Chain: dense(10), Contracts: 2, Prunable: true, L1Head: &l}, Starts: und}, "prune-l1head")
+	}
+	// empty blocks: below the aligned first block with transactions, a whole empty aligned range, and sparse
+	for _, lay := range []struct {
+		counts []int
+	}{
+		{append(repeatInt(0, 20), repeatInt(2, 4)...)},
+		{append(append(repeatInt(1, 10), repeatInt(0, 10)...), repeatInt(1, 6)...)},
+		{append(repeatInt(1, 20), 0, 0, 1, 0, 1, 1)},
+	} {
+		layout := make([]byte, len(lay.counts))
+		for i, c := range lay.counts {
+			layout[i] = 'o'
+			if c == 0 {
+				layout[i] = '-'
+			}
+		}
+		fs := fullSpec{Chain: chainSpec{Seed: 9, Counts: lay.counts, Layout: string(layout)}, Contracts: 3, Prunable: true}
+		h.fullHistoryCase(fullHistory{Spec: fs, Starts: und}, "prune-empty-blocks")
+		h.fullHistoryCase(fullHistory{Spec: fs, Starts: []fullStart{{HeadState: true}, {Prune: true, HeadState: true}}}, "prune-empty-blocks-later")
+	}
+	// prune-mode switched on after the upgrade completed without it; with interruptions of the pruner
+	pr := fullSpec{Chain: dense(20), Contracts: 2, Prunable: true}
+	h.fullHistoryCase(fullHistory{Spec: pr, Starts: []fullStart{{HeadState: true}, {Prune: true, HeadState: true}}}, "prune-later")
+	for k := 1; k <= 40; k += h.f.Scale(5, 1) {
+		h.fullHistoryCase(fullHistory{Spec: pr, Starts: []fullStart{{HeadState: true}, {Prune: true, HeadState: true, Inflate: true, CrashAt: k}}}, "prune-later-crash")
+		h.fullHistoryCase(fullHistory{Spec: pr, Starts: []fullStart{{HeadState: true}, {Prune: true, HeadState: true, Inflate: true, CancelAt: k}}}, "prune-later-cancel")
+		// retainedBlocks changed after an interrupted prune
+		h.fullHistoryCase(fullHistory{Spec: pr, Starts: []fullStart{{Prune: true, HeadState: true, Inflate: true, CancelAt: 30 + k}, {Prune: true, HeadState: true, Retained: 9}}}, "prune-retained-changed-after-cancel")
+		h.fullHistoryCase(fullHistory{Spec: pr, Starts: []fullStart{{Prune: true, HeadState: true, Inflate: true, CrashAt: 30 + k}, {Prune: true, HeadState: true, Retained: 9}}}, "prune-retained-changed-after-crash")
+		h.fullHistoryCase(fullHistory{Spec: pr, Starts: []fullStart{{Prune: true, HeadState: true, Inflate: true, FailAt: 30 + k}}}, "prune-writefail")
+	}
+}
+
+// classifyUpgradeFailure attributes a start that returned an error without being interrupted itself
+// to its cause.
+func classifyUpgradeFailure(o fullOutcome, retentionChanged, disturbedBefore bool) (sig, msg string) {
+	msg = "an undisturbed start returns an error"
+	for i, ob := range o.obs {
+		if ob.errKind == "o" {
+			msg += fmt.Sprintf(" (migration %d failed: %s)", i, ob.errText)
+		}
+	}
+	sig = "upgrade-fails-after-interruption"
+	if !disturbedBefore {
+		sig = "upgrade-fails-undisturbed"
+		msg = "no interruption anywhere in the history: " + msg
+	}
+	if ob := o.obs[1]; ob != nil && ob.errKind == "o" {
+		switch {
+		case strings.Contains(ob.errText, "running stager") && strings.Contains(ob.errText, "history at block"):
+			// the defect demonstrated deterministically by prunerRestoreCrash
+			sig = "historyprunner-rerun-fails-after-death-in-restore-phase"
+		case strings.Contains(ob.errText, "setting up before restorer") && strings.Contains(ob.errText, "18446744073709551615"):
+			// cutoff 0 (pivot == retainedBlocks): oldestBlockKept-1 underflows after the prune and the
+			// wipe of the reverse-lookup buckets were committed
+			sig = "historyprunner-floor-zero-underflows-restorer-setup"
+		case strings.Contains(ob.errText, "running stager") && strings.Contains(ob.errText, "load state update for block") && retentionChanged:
+			// the cutoff committed by an earlier (dead) run is not persisted; a restart with a larger
+			// retainedBlocks recomputes a lower cutoff and stages blocks that are already pruned
+			sig = "historyprunner-restart-recomputes-cutoff-below-pruned-prefix"
+		case strings.Contains(ob.errText, "rebuild tx indices") && strings.Contains(ob.errText, "key not found"):
+			// a kept block without a combined entry (an empty block the block-transactions
+			// migration left without one): the restorer fails after wiping the live history
+			sig = "historyprunner-restorer-fails-on-unstored-empty-block"
+		}
+	}
+	return sig, msg
+}
+
+// ---- history pruner: the cutoff decision against its Lean model ---------------------------------
+
+func oldestRetained(d *memory.Database) uint64 {
+	o, err := pruner.OldestRetainedBlock(d)
+	if err != nil {
+		return 0
+	}
+	return o
+}
+
+// pruneCutoffGrid: dense prunable chains over a grid of heights x retainedBlocks x L1-head positions,
+// one undisturbed start with prune-mode each, plus restarts on a database a dead run already pruned,
+// with another retention. The cutoff the real pruner pruned to (or its refusal to prune, or its
+// failure) must be what the model's `cutoff` / `setupOk` say; the two variant flags of the model
+// are decided by two fixed probes first.
+func (h *harness) pruneCutoffGrid() {
+	dense := func(n int) chainSpec {
+		return chainSpec{Seed: 9, Counts: repeatInt(2, n), Layout: strings.Repeat("o", n)}
+	}
+	run := func(fs fullSpec, d *memory.Database, ret int) (fullOutcome, uint64) {
+		o := realFullStart(d, fs, fullStart{Prune: true, Retained: ret})
+		return o, oldestRetained(o.after)
+	}
+	// probe 1: pivot == retained
+	zero := true
+	{
+		l1 := uint64(4)
+		fs := fullSpec{Chain: dense(7), Prunable: true, L1Head: &l1, Retained: 4}
+		d, err := fs.build()
+		if err != nil {
+			h.res.Fatalf("pruner probe fixture does not build: %v", err)
+			return
+		}
+		o, _ := run(fs, d, 4)
+		zero = o.result != "ok"
+	}
+	// probe 2: a database pruned up to 14 by a dead run (emulated: the prune of setupBeforeStager
+	// committed, nothing else), restart with a larger retention
+	below := true
+	mkPruned := func(fs fullSpec, upto uint64) (*memory.Database, error) {
+		d, err := fs.build()
+		if err != nil {
+			return nil, err
+		}
+		// blocktransactions etc. applied first, as the registry order demands
+		o := realFullStart(d, fs, fullStart{})
+		if o.result != "ok" {
+			return nil, fmt.Errorf("upgrade without prune-mode: %s", o.result)
+		}
+		if err := pruner.PruneBlockDataUpto(o.after, upto); err != nil {
+			return nil, err
+		}
+		return o.after, nil
+	}
+	{
+		fs := fullSpec{Chain: dense(20), Prunable: true}
+		d, err := mkPruned(fs, 14)
+		if err != nil {
+			h.res.Fatalf("pruner probe fixture does not build: %v", err)
+			return
+		}
+		o, _ := run(fs, d, 9)
+		below = o.result != "ok"
+	}
+	h.res.Hit(fmt.Sprintf("probe:pruner-zeroCutoffRuns=%v", zero))
+	h.res.Hit(fmt.Sprintf("probe:pruner-cutoffBelowPruned=%v", below))
+	b2 := map[bool]string{true: "1", false: "0"}
+	check := func(fs fullSpec, d *memory.Database, ret int, prunedBefore uint64, what string) {
+		height := fs.Chain.height()
+		l1, _ := fs.l1Head()
+		o, floor := run(fs, d, ret)
+		ans := h.bt.ask(fmt.Sprintf("pr.cutoff %s %s %d %d %d %d x", b2[zero], b2[below], height, l1, ret, prunedBefore))
+		h.res.Compared(1)
+		h.res.Case(fmt.Sprintf("prune-cutoff|%d|%d|%d|%d", height, l1, ret, prunedBefore), true)
+		var impl string
+		switch {
+		case o.hang:
+			impl = "hang"
+		case o.result != "ok":
+			impl = "fails"
+		case floor == prunedBefore:
+			impl = "unchanged"
+		default:
+			impl = fmt.Sprintf("%d", floor)
+		}
+		var want string
+		f := strings.Fields(ans)
+		switch {
+		case ans == "none":
+			want = "unchanged"
+		case len(f) == 2 && f[1] == "fails":
+			want = "fails"
+		case len(f) == 2 && f[0] == fmt.Sprint(prunedBefore):
+			want = "unchanged"
+		case len(f) == 2:
+			want = f[0]
+		default:
+			want = "?" + ans
+		}
+		h.res.Hit("prune-cutoff:" + map[bool]string{true: "agree", false: "DIFFER"}[want == impl] + ":" + strings.TrimLeft(want, "0123456789"))
+		if want != impl {
+			h.res.Mismatch(lib.Mismatch{Sig: "historyprunner-cutoff-differs-from-model", Input: map[string]any{"spec": fs, "retained": ret, "prunedBefore": prunedBefore, "what": what},
+				Model: ans, Impl: impl})
+		}
+		// the failures are reported (with their own sigs) by fullHistoryCase on the same inputs
+		if impl == "fails" && prunedBefore == 0 {
+			h.fullHistoryCase(fullHistory{Spec: fs, Starts: []fullStart{{Prune: true, Retained: ret}}}, "prune-cutoff-fails")
+		}
+	}
+	for _, n := range []int{1, 2, 3, 5, 6, 7, 8, 11, 14} {
+		for _, ret := range []int{1, 4, 8} {
+			for _, l1 := range []int{0, n - 3, n - 1, n + 4} {
+				if l1 < 0 {
+					continue
+				}
+				l := uint64(l1)
+				fs := fullSpec{Chain: dense(n), Contracts: 1, Prunable: true, L1Head: &l, Retained: ret}
+				d, err := fs.build()
+				if err != nil {
+					h.res.Fatalf("pruner grid fixture does not build: %v", err)
+					return
+				}
+				check(fs, d, ret, 0, "fresh database")
+			}
+		}
+	}
+	for _, upto := range []uint64{3, 14} {
+		for _, ret := range []int{2, 4, 9, 15} {
+			fs := fullSpec{Chain: dense(20), Prunable: true}
+			d, err := mkPruned(fs, upto)
+			if err != nil {
+				h.res.Fatalf("pruner grid fixture does not build: %v", err)
+				return
+			}
+			check(fs, d, ret, upto, "database already pruned by a dead run")
+		}
+	}
 }
